@@ -34,7 +34,10 @@ CHECKS = {
         dict(prop="REG", harness="api_pbt", quick=dict(count=0, workers=1), thorough=dict(count=0, workers=1)),  # regression scenarios
         dict(prop="C07", harness="api_pbt", quick=dict(count=6000, workers=8), thorough=dict(count=200000, workers=16),
              essential=_ALL_SCHEMAS + ["depth>=3", "move-non-last-sibling", "remove-with-subtree", "cycle-attempt", "name:invalid",
-                                       "rename-above-grandchildren", "move-into-empty-parent", "duplicate-name-rejected"])]),
+                                       "rename-above-grandchildren", "move-into-empty-parent", "duplicate-name-rejected"]),
+        # bounded-exhaustive: every sequence of 2 (quick) / 3 (thorough) operations from a 42-letter alphabet over <= 4 crates, 3 schemas
+        dict(prop="C07.enum2", harness="api_pbt", quick=dict(count="enum", workers=8), thorough=dict(count=0, workers=1)),
+        dict(prop="C07.enum3", harness="api_pbt", quick=dict(count=0, workers=1), thorough=dict(count="enum", workers=16))]),
     "C08": dict(level="exploration", parts=[
         dict(prop="REG", harness="api_pbt", quick=dict(count=0, workers=1), thorough=dict(count=0, workers=1)),  # regression scenarios
         dict(prop="C08", harness="api_pbt", quick=dict(count=4000, workers=8), thorough=dict(count=150000, workers=16),
@@ -50,7 +53,7 @@ CHECKS = {
     "C10": dict(level="exploration", parts=[
         dict(prop="REG", harness="api_pbt", quick=dict(count=0, workers=1), thorough=dict(count=0, workers=1)),  # regression scenarios
         dict(prop="C10", harness="api_pbt", quick=dict(count=2000, workers=8), thorough=dict(count=60000, workers=16),
-             essential=_ALL_SCHEMAS + ["reopen>=2", "create_or_load:create", "create_or_load:load", "track-with-performance-data"])]),
+             essential=_ALL_SCHEMAS + ["reopen>=2", "create_or_load:create", "create_or_load:load", "create_or_load:other-generation-arg", "track-with-performance-data"])]),
     "C11": dict(level="exploration", parts=[
         dict(prop="REG", harness="api_pbt", quick=dict(count=0, workers=1), thorough=dict(count=0, workers=1)),  # regression scenarios
         dict(prop="C11", harness="api_pbt", quick=dict(count=1600, workers=8), thorough=dict(count=50000, workers=16),
@@ -60,7 +63,7 @@ CHECKS = {
                 exhaustive_scope="the 18 schemas x {on-disk, temporary} are enumerated completely against all 62 reference dumps; the normaliser property is sampled",
                 parts=[
         dict(prop="C12", harness="schema_pbt", quick=dict(count="enum", workers=6), thorough=dict(count="enum", workers=6),
-             essential=_ALL_SCHEMAS + ["form=on-disk", "form=temporary", "several-references"]),
+             essential=_ALL_SCHEMAS + ["schema=3.0.0", "form=on-disk", "form=temporary", "several-references"]),
         dict(prop="C12.norm", harness="schema_pbt", quick=dict(count=4000, workers=4), thorough=dict(count=200000, workers=16),
              essential=["norm:equal-under-respelling", "norm:token-deleted", "norm:token-substituted"]),
     ]),
@@ -73,7 +76,7 @@ CHECKS = {
     ]),
     "C17": dict(level="exploration", parts=[
         dict(prop="C17", harness="schema_pbt", quick=dict(count=3200, workers=8), thorough=dict(count=120000, workers=16),
-             essential=_ALL_SCHEMAS + ["file=m.db", "file=p.db", "effective-mutant", "equivalent-mutant"] +
+             essential=_ALL_SCHEMAS + ["schema=3.0.0", "file=m.db", "file=p.db", "effective-mutant", "equivalent-mutant"] +
                        [f + k for f in ("1.x:", "2.x:") for k in ['drop-table', 'rename-table', 'add-table', 'drop-view', 'rename-view', 'add-view', 'add-column', 'drop-column', 'rename-column', 'change-type', 'add-notnull', 'add-default', 'drop-index', 'add-index', 'flip-unique', 'reorder-columns']]),
         dict(prop="C17.refs", harness="schema_pbt", quick=dict(count="enum", workers=8), thorough=dict(count="enum", workers=8),
              essential=[x for x in _ALL_SCHEMAS if x != "schema=1.6.0"]),
@@ -181,7 +184,10 @@ RULES = {
            "sub_crate_by_name agree with the model; ids stable and new ids distinct from live ids (2.x: from every id ever issued); removed "
            "handles invalid. Invalid names and cycle attempts must throw; legal operations must succeed unless a sibling name collides; "
            "remove_crate may remove the subtree or re-root survivors (model adopts what the library did, invariants must then hold). "
-           "Non-trivial = depth >=2 and a rename/move/remove hit a crate with descendants, or a cycle attempt was made.",
+           "Additionally a bounded-exhaustive part: every sequence of exactly 2 (quick) / 3 (thorough) operations from a 42-letter "
+           "alphabet (create root / sub-crate of crate 0..3 with name A|B, rename crate 0..3 to A|B, re-parent crate 0..3 under crate 0..3 or none, "
+           "remove crate 0..3; at most 4 crates) on 1.6.0, 1.18.0 (OS) and 2.21.2, invariants after every step (so shorter sequences are "
+           "covered as prefixes). Non-trivial = depth >=2 and a rename/move/remove hit a crate with descendants, or a cycle attempt was made.",
     "C08": "Case = schema + id-diverging prelude (0..2 tracks created and removed, 1..3 live tracks, 1..3 crates) + up to 27 operations "
            "(create/remove track, create/remove crate, add_track by handle and by id, crate::remove_track, clear_tracks). Membership model: "
            "after every step every live crate's tracks() equals the model set as a multiset, every handle is_valid(), on 1.x "
@@ -204,7 +210,7 @@ RULES = {
            "verify() passes, every stored blob decodes, 1.x Crate.path / CrateParentList / CrateHierarchy all describe the model forest, 2.x "
            "nextListId / nextEntityId chains are single acyclic lists with one tail per parent / list, file name / extension (fileType) / origin "
            "ids agree with the path and the database uuid. Non-trivial = a step changed a crate with descendants or a track path.",
-    "C12": "Enumerated: every supported schema (18) x {created on disk, created as temporary database}. The 62 reference dumps of "
+    "C12": "Enumerated: every supported schema (18) and 3.0.0 (which has a creator although supported_schemas omits it) x {created on disk, created as temporary database}. The 62 reference dumps of "
            "testdata/ref are hydrated by the harness itself (own SQLite connection, script executed verbatim) and assigned to a schema by "
            "their own Information row (and product line for the two 1.18.0 variants). Oracle: the multiset of (type, name, tbl_name, "
            "normalise(sql)) of the created library's sqlite_master (m.db and p.db; temporary libraries are read through the library's own "
